@@ -1,1 +1,1062 @@
-//! C11 harnesses (see /verif/tools/HARNESS_GUIDE.md).
+//! C11 — aggregations equal their textbook definitions over the non-null elements (Engine K part).
+//!
+//! Shape of every harness: the input is described by an array of integer *keys* `[Option<i32>; N]`
+//! (`None` = null); the element array handed to tevec is derived from it (`Option<i32>` as is,
+//! `Option<i64>` widened, `f64` as `key as f64` / NaN, `i32` for null-free series). Oracles work on
+//! the keys only and are written as definitions: a count is a plain loop, a minimum is "attained and
+//! a lower bound of every valid key", an arg-minimum is "a valid position, nothing valid below it,
+//! nothing valid equal to it before it".
+//!
+//! Iterator sources (`mk` closures build a fresh iterator for every call):
+//!   own  — the owned `Vec<E>` (`into_iter`)
+//!   tit  — `vec.titer()`
+//!   opt  — `&vec.opt()` (`OptIter`, boxed trusted iterator, items `Option<E::Inner>`)
+//!   optt — `vec.opt().titer()` (the double-ended form, needed by `vlast` / `last`)
+//!
+//! Families: `fam_valid_cmp` (+ `fam_valid_last`), `fam_valid_sum`, `fam_plain`, `fam_plain_cmp_f64`,
+//! `fam_bool*`, `fam_masked`, `perm_*` (relational: symbolic transposition), `fold_protocol*`
+//! (recording closures; Engine M's loop summaries rest on them, DESIGN 1.3).
+//!
+//! Isolated (suspected defect of the pinned tree, see the report): `plain_extrema_nan` — the
+//! null-unaware `min/max/argmin/argmax` on a float series that contains NaN.
+use tea_agg::AggValidExt;
+use tea_core::prelude::*;
+
+use crate::util::*;
+
+// ---------------------------------------------------------------------------------------------
+// keys, elements
+// ---------------------------------------------------------------------------------------------
+
+#[derive(Clone, Copy, PartialEq)]
+pub enum Alpha {
+    /// -2..=2: forces ties
+    Small,
+    /// unconstrained i32
+    Any,
+    /// -1000..=1000: i32 sums cannot overflow
+    Sum,
+}
+
+pub fn keys<const N: usize>(alpha: Alpha, nullable: bool) -> [Option<i32>; N] {
+    let mut k = [Some(0); N];
+    let mut i = 0;
+    while i < N {
+        let v: i32 = match alpha {
+            Alpha::Small => small_i32(-2, 2),
+            Alpha::Any => kani::any(),
+            Alpha::Sum => small_i32(-1000, 1000),
+        };
+        k[i] = if nullable && kani::any() { None } else { Some(v) };
+        i += 1;
+    }
+    k
+}
+
+/// inner (never-null) value types: exact images of i32 / i64 integers
+pub trait IKey: Copy + PartialOrd {
+    fn of(v: i32) -> Self;
+    /// `v` is a sum of at most 5 keys and fits the type by the choice of alphabet
+    fn of64(v: i64) -> Self;
+}
+impl IKey for i32 {
+    fn of(v: i32) -> Self {
+        v
+    }
+    fn of64(v: i64) -> Self {
+        v as i32
+    }
+}
+impl IKey for i64 {
+    fn of(v: i32) -> Self {
+        v as i64
+    }
+    fn of64(v: i64) -> Self {
+        v
+    }
+}
+impl IKey for f64 {
+    fn of(v: i32) -> Self {
+        v as f64
+    }
+    fn of64(v: i64) -> Self {
+        v as f64
+    }
+}
+
+/// element types; nullness is judged by the harness' own definition (NaN / None), not by `IsNone`
+pub trait Elt: Copy + IsNone + 'static
+where
+    Self::Inner: IKey,
+{
+    /// for the never-null element types the key must be `Some`
+    fn from_key(k: Option<i32>) -> Self;
+    fn is_key(self, k: Option<i32>) -> bool;
+}
+
+impl Elt for i32 {
+    fn from_key(k: Option<i32>) -> Self {
+        match k {
+            Some(v) => v,
+            None => 0,
+        }
+    }
+    fn is_key(self, k: Option<i32>) -> bool {
+        k == Some(self)
+    }
+}
+impl Elt for i64 {
+    fn from_key(k: Option<i32>) -> Self {
+        match k {
+            Some(v) => v as i64,
+            None => 0,
+        }
+    }
+    fn is_key(self, k: Option<i32>) -> bool {
+        match k {
+            Some(v) => self == v as i64,
+            None => false,
+        }
+    }
+}
+impl Elt for Option<i32> {
+    fn from_key(k: Option<i32>) -> Self {
+        k
+    }
+    fn is_key(self, k: Option<i32>) -> bool {
+        self == k
+    }
+}
+impl Elt for Option<i64> {
+    fn from_key(k: Option<i32>) -> Self {
+        match k {
+            Some(v) => Some(v as i64),
+            None => None,
+        }
+    }
+    fn is_key(self, k: Option<i32>) -> bool {
+        match (self, k) {
+            (None, None) => true,
+            (Some(a), Some(b)) => a == b as i64,
+            _ => false,
+        }
+    }
+}
+impl Elt for f64 {
+    fn from_key(k: Option<i32>) -> Self {
+        match k {
+            Some(v) => v as f64,
+            None => f64::NAN,
+        }
+    }
+    fn is_key(self, k: Option<i32>) -> bool {
+        match k {
+            None => self != self,
+            Some(b) => self == b as f64,
+        }
+    }
+}
+impl Elt for Option<f64> {
+    fn from_key(k: Option<i32>) -> Self {
+        match k {
+            Some(v) => Some(v as f64),
+            None => None,
+        }
+    }
+    fn is_key(self, k: Option<i32>) -> bool {
+        match (self, k) {
+            (None, None) => true,
+            (Some(a), Some(b)) => a == b as f64,
+            _ => false,
+        }
+    }
+}
+
+pub fn to_vec<E: Elt, const N: usize>(k: &[Option<i32>; N]) -> Vec<E>
+where
+    E::Inner: IKey,
+{
+    let mut v = Vec::with_capacity(N);
+    let mut i = 0;
+    while i < N {
+        v.push(E::from_key(k[i]));
+        i += 1;
+    }
+    v
+}
+
+// ---------------------------------------------------------------------------------------------
+// definitions on keys
+// ---------------------------------------------------------------------------------------------
+
+pub fn n_valid<const N: usize>(k: &[Option<i32>; N]) -> usize {
+    let mut n = 0;
+    let mut i = 0;
+    while i < N {
+        if k[i].is_some() {
+            n += 1;
+        }
+        i += 1;
+    }
+    n
+}
+
+pub fn sum_valid<const N: usize>(k: &[Option<i32>; N]) -> i64 {
+    let mut s = 0i64;
+    let mut i = 0;
+    while i < N {
+        if let Some(x) = k[i] {
+            s += x as i64;
+        }
+        i += 1;
+    }
+    s
+}
+
+pub fn n_equal<const N: usize>(k: &[Option<i32>; N], val: Option<i32>) -> usize {
+    let mut n = 0;
+    let mut i = 0;
+    while i < N {
+        if k[i] == val {
+            n += 1;
+        }
+        i += 1;
+    }
+    n
+}
+
+/// position of the first / last valid key
+pub fn first_valid<const N: usize>(k: &[Option<i32>; N]) -> Option<usize> {
+    let mut i = 0;
+    while i < N {
+        if k[i].is_some() {
+            return Some(i);
+        }
+        i += 1;
+    }
+    None
+}
+
+pub fn last_valid<const N: usize>(k: &[Option<i32>; N]) -> Option<usize> {
+    let mut i = N;
+    while i > 0 {
+        i -= 1;
+        if k[i].is_some() {
+            return Some(i);
+        }
+    }
+    None
+}
+
+/// `m` is the minimum (maximum for `max`) of the valid keys: attained, and a bound of every valid key
+pub fn is_extremum<X: IKey, const N: usize>(k: &[Option<i32>; N], m: X, max: bool) -> bool {
+    let mut attained = false;
+    let mut bound = true;
+    let mut i = 0;
+    while i < N {
+        if let Some(y) = k[i] {
+            let y = X::of(y);
+            if y == m {
+                attained = true;
+            }
+            if (!max && y < m) || (max && y > m) {
+                bound = false;
+            }
+        }
+        i += 1;
+    }
+    attained && bound
+}
+
+/// `r` is the position of the first minimum (maximum) among the valid keys; `None` iff no key is valid
+pub fn is_arg_extremum<const N: usize>(k: &[Option<i32>; N], r: Option<usize>, max: bool) -> bool {
+    match r {
+        None => n_valid(k) == 0,
+        Some(p) => {
+            if p >= N {
+                return false;
+            }
+            let m = match k[p] {
+                Some(m) => m,
+                None => return false,
+            };
+            let mut ok = true;
+            let mut i = 0;
+            while i < N {
+                if let Some(y) = k[i] {
+                    let beats = if max { y > m } else { y < m };
+                    if beats || (y == m && i < p) {
+                        ok = false;
+                    }
+                }
+                i += 1;
+            }
+            ok
+        },
+    }
+}
+
+#[derive(Default)]
+pub struct Fl {
+    /// a null and a valid element in the same series
+    pub mixed: bool,
+    /// the minimum or the maximum occurs at least twice
+    pub tie: bool,
+    /// N > 0 and no valid element
+    pub all_null: bool,
+    /// a null in the first slot and a valid element behind it
+    pub null_first: bool,
+}
+
+pub fn witness<const N: usize>(k: &[Option<i32>; N], fl: &mut Fl) {
+    let nv = n_valid(k);
+    if nv > 0 && nv < N {
+        fl.mixed = true;
+    }
+    if N > 0 && nv == 0 {
+        fl.all_null = true;
+    }
+    if N > 0 && k[0].is_none() && nv > 0 {
+        fl.null_first = true;
+    }
+    let mut i = 0;
+    while i < N {
+        if let Some(x) = k[i] {
+            if is_extremum::<i32, N>(k, x, false) || is_extremum::<i32, N>(k, x, true) {
+                let mut j = i + 1;
+                while j < N {
+                    if k[j] == Some(x) {
+                        fl.tie = true;
+                    }
+                    j += 1;
+                }
+            }
+        }
+        i += 1;
+    }
+}
+
+// ---------------------------------------------------------------------------------------------
+// null-aware comparison family: counts, first, extrema, arg-extrema
+// ---------------------------------------------------------------------------------------------
+
+pub fn fam_valid_cmp<E: Elt, I: IntoIterator<Item = E>, const N: usize>(k: &[Option<i32>; N], mk: impl Fn() -> I, fl: &mut Fl)
+where
+    E::Inner: IKey + Number,
+{
+    let nv = n_valid(k);
+    witness(k, fl);
+    assert!(AggValidBasic::count_valid(mk()) == nv, "count_valid is the number of non-null elements");
+    assert!(AggValidBasic::count_none(mk()) == N - nv, "count_none is the number of null elements");
+    // searched value: null, or any value of the alphabet (it need not occur)
+    let val: Option<i32> = if kani::any() { None } else { Some(kani::any()) };
+    assert!(
+        AggValidBasic::vcount_value(mk(), E::from_key(val)) == n_equal(k, val),
+        "vcount_value counts the elements equal to the value (null counts the nulls)"
+    );
+    match AggValidBasic::vfirst(mk()) {
+        None => assert!(nv == 0, "vfirst is null only when no element is valid"),
+        Some(e) => match first_valid(k) {
+            None => assert!(false, "vfirst is null when no element is valid"),
+            Some(p) => assert!(e.is_key(k[p]), "vfirst is the first non-null element"),
+        },
+    }
+    match AggBasic::first(mk()) {
+        None => assert!(N == 0, "first is null only for the empty series"),
+        Some(e) => assert!(N > 0 && e.is_key(k[0]), "first is element 0, null or not"),
+    }
+    match AggValidBasic::vmin(mk()) {
+        None => assert!(nv == 0, "vmin is null only when no element is valid"),
+        Some(m) => assert!(nv > 0 && is_extremum(k, m, false), "vmin is the least valid element"),
+    }
+    match AggValidBasic::vmax(mk()) {
+        None => assert!(nv == 0, "vmax is null only when no element is valid"),
+        Some(m) => assert!(nv > 0 && is_extremum(k, m, true), "vmax is the greatest valid element"),
+    }
+    assert!(
+        is_arg_extremum(k, AggValidBasic::vargmin(mk()), false),
+        "vargmin is the position of the first minimum among the valid elements, null iff none"
+    );
+    assert!(
+        is_arg_extremum(k, AggValidBasic::vargmax(mk()), true),
+        "vargmax is the position of the first maximum among the valid elements, null iff none"
+    );
+}
+
+/// the two aggregations that need a double-ended iterator
+pub fn fam_valid_last<E: Elt, I: IntoIterator<Item = E>, const N: usize>(k: &[Option<i32>; N], mk: impl Fn() -> I)
+where
+    E::Inner: IKey,
+    I::IntoIter: DoubleEndedIterator,
+{
+    match AggValidBasic::vlast(mk()) {
+        None => assert!(n_valid(k) == 0, "vlast is null only when no element is valid"),
+        Some(e) => match last_valid(k) {
+            None => assert!(false, "vlast is null when no element is valid"),
+            Some(p) => assert!(e.is_key(k[p]), "vlast is the last non-null element"),
+        },
+    }
+    match AggBasic::last(mk()) {
+        None => assert!(N == 0, "last is null only for the empty series"),
+        Some(e) => assert!(N > 0 && e.is_key(k[N - 1]), "last is element N-1, null or not"),
+    }
+}
+
+// ---------------------------------------------------------------------------------------------
+// null-aware sums and means on integers
+// ---------------------------------------------------------------------------------------------
+
+pub fn fam_valid_sum<E: Elt, I: IntoIterator<Item = E>, const N: usize>(k: &[Option<i32>; N], mk: impl Fn() -> I, fl: &mut Fl)
+where
+    E::Inner: IKey + Number,
+{
+    let nv = n_valid(k);
+    let s = sum_valid(k);
+    witness(k, fl);
+    match AggValidBasic::vsum(mk()) {
+        None => assert!(nv == 0, "vsum is null only when no element is valid"),
+        Some(r) => assert!(nv > 0 && r == E::Inner::of64(s), "vsum is the sum of the valid elements"),
+    }
+    let m = AggValidBasic::vmean(mk());
+    if nv == 0 {
+        assert!(m != m, "vmean is null when no element is valid");
+    } else {
+        assert!(m == (s as f64) / (nv as f64), "vmean is the sum of the valid elements over their number");
+    }
+}
+
+// ---------------------------------------------------------------------------------------------
+// null-unaware family on null-free integer series
+// ---------------------------------------------------------------------------------------------
+
+/// `T` is i32 or i64 (never null): every element counts. Comparison part.
+pub fn fam_plain_cmp<T: Elt<Inner = T> + IKey + Number + PartialEq, I: IntoIterator<Item = T>, const N: usize>(
+    k: &[Option<i32>; N],
+    mk: impl Fn() -> I,
+    fl: &mut Fl,
+) where
+    I::IntoIter: DoubleEndedIterator,
+{
+    witness(k, fl);
+    let val: i32 = kani::any();
+    assert!(AggBasic::count_value(mk(), T::of(val)) == n_equal(k, Some(val)), "count_value counts the elements equal to the value");
+    match AggBasic::first(mk()) {
+        None => assert!(N == 0, "first is null only for the empty series"),
+        Some(e) => assert!(N > 0 && e.is_key(k[0]), "first is element 0"),
+    }
+    match AggBasic::last(mk()) {
+        None => assert!(N == 0, "last is null only for the empty series"),
+        Some(e) => assert!(N > 0 && e.is_key(k[N - 1]), "last is element N-1"),
+    }
+    match AggBasic::min(mk()) {
+        None => assert!(N == 0, "min is null only for the empty series"),
+        Some(m) => assert!(N > 0 && is_extremum(k, m, false), "min is the least element"),
+    }
+    match AggBasic::max(mk()) {
+        None => assert!(N == 0, "max is null only for the empty series"),
+        Some(m) => assert!(N > 0 && is_extremum(k, m, true), "max is the greatest element"),
+    }
+    assert!(is_arg_extremum(k, AggBasic::argmin(mk()), false), "argmin is the position of the first minimum, null iff empty");
+    assert!(is_arg_extremum(k, AggBasic::argmax(mk()), true), "argmax is the position of the first maximum, null iff empty");
+    // the null-aware forms on a type without nulls see every element
+    assert!(AggValidBasic::count_valid(mk()) == N, "count_valid of a null-free series is its length");
+    assert!(AggValidBasic::count_none(mk()) == 0, "count_none of a null-free series is 0");
+    assert!(is_arg_extremum(k, AggValidBasic::vargmin(mk()), false), "vargmin of a null-free series is argmin");
+    assert!(is_arg_extremum(k, AggValidBasic::vargmax(mk()), true), "vargmax of a null-free series is argmax");
+}
+
+/// Sum part: the keys come from an alphabet whose sums fit `T`.
+pub fn fam_plain_sum<T: Elt<Inner = T> + IKey + Number + PartialEq, I: IntoIterator<Item = T>, const N: usize>(
+    k: &[Option<i32>; N],
+    mk: impl Fn() -> I,
+) {
+    let s = sum_valid(k);
+    match AggBasic::sum(mk()) {
+        None => assert!(N == 0, "sum is null only for the empty series"),
+        Some(r) => assert!(N > 0 && r == T::of64(s), "sum is the sum of all elements"),
+    }
+    match AggBasic::n_sum(mk()) {
+        (n, None) => assert!(N == 0 && n == 0, "n_sum is (0, null) only for the empty series"),
+        (n, Some(r)) => assert!(N > 0 && n == N && r == T::of64(s), "n_sum is (length, sum of all elements)"),
+    }
+    match AggBasic::mean(mk()) {
+        None => assert!(N == 0, "mean is null only for the empty series"),
+        Some(m) => assert!(N > 0 && m == (s as f64) / (N as f64), "mean is the sum of all elements over the length"),
+    }
+    match AggValidBasic::vsum(mk()) {
+        None => assert!(N == 0, "vsum of a null-free series is null only when empty"),
+        Some(r) => assert!(N > 0 && r == T::of64(s), "vsum of a null-free series is sum"),
+    }
+    let m = AggValidBasic::vmean(mk());
+    if N == 0 {
+        assert!(m != m, "vmean of the empty series is null");
+    } else {
+        assert!(m == (s as f64) / (N as f64), "vmean of a null-free series is mean");
+    }
+}
+
+/// null-unaware comparisons on a float series WITHOUT NaN (keys all `Some`)
+pub fn fam_plain_cmp_f64<I: IntoIterator<Item = f64>, const N: usize>(k: &[Option<i32>; N], mk: impl Fn() -> I, fl: &mut Fl)
+where
+    I::IntoIter: DoubleEndedIterator,
+{
+    witness(k, fl);
+    let val: i32 = small_i32(-3, 3);
+    assert!(AggBasic::count_value(mk(), val as f64) == n_equal(k, Some(val)), "count_value counts the float elements equal to the value");
+    match AggBasic::first(mk()) {
+        None => assert!(N == 0, "first is null only for the empty float series"),
+        Some(e) => assert!(N > 0 && e.is_key(k[0]), "first is float element 0"),
+    }
+    match AggBasic::last(mk()) {
+        None => assert!(N == 0, "last is null only for the empty float series"),
+        Some(e) => assert!(N > 0 && e.is_key(k[N - 1]), "last is float element N-1"),
+    }
+    match AggBasic::min(mk()) {
+        None => assert!(N == 0, "min is null only for the empty float series"),
+        Some(m) => assert!(N > 0 && is_extremum(k, m, false), "min is the least float element"),
+    }
+    match AggBasic::max(mk()) {
+        None => assert!(N == 0, "max is null only for the empty float series"),
+        Some(m) => assert!(N > 0 && is_extremum(k, m, true), "max is the greatest float element"),
+    }
+    assert!(is_arg_extremum(k, AggBasic::argmin(mk()), false), "argmin is the position of the first float minimum");
+    assert!(is_arg_extremum(k, AggBasic::argmax(mk()), true), "argmax is the position of the first float maximum");
+}
+
+/// ISOLATED: the null-unaware `min / max / argmin / argmax` on a float series that contains NaN.
+/// The statement evaluates every aggregation "on the non-null elements" and demands permutation
+/// invariance of min / max; the repository's own `test_cmp` expects `max([1, 3, NaN, 2, 5]) == 5`.
+/// One function per harness (`which`): a failed assertion hides the inputs of the later ones.
+pub fn plain_extrema_nan<const N: usize>(k: &[Option<i32>; N], which: u8, fl: &mut Fl) {
+    let v: Vec<f64> = to_vec(k);
+    let nv = n_valid(k);
+    witness(k, fl);
+    match which {
+        0 => match AggBasic::min(v.titer()) {
+            None => assert!(N == 0, "float min is null only for the empty series"),
+            Some(m) => {
+                if nv == 0 {
+                    assert!(m != m, "float min of an all-NaN series is NaN");
+                } else {
+                    assert!(is_extremum(k, m, false), "float min ignores NaN wherever it stands (least non-NaN element)");
+                }
+            },
+        },
+        1 => match AggBasic::max(v.titer()) {
+            None => assert!(N == 0, "float max is null only for the empty series"),
+            Some(m) => {
+                if nv == 0 {
+                    assert!(m != m, "float max of an all-NaN series is NaN");
+                } else {
+                    assert!(is_extremum(k, m, true), "float max ignores NaN wherever it stands (greatest non-NaN element)");
+                }
+            },
+        },
+        2 => {
+            if nv > 0 {
+                assert!(
+                    is_arg_extremum(k, AggBasic::argmin(v.titer()), false),
+                    "float argmin never points at a NaN while a non-NaN element exists (first least non-NaN element)"
+                );
+            }
+        },
+        _ => {
+            if nv > 0 {
+                assert!(
+                    is_arg_extremum(k, AggBasic::argmax(v.titer()), true),
+                    "float argmax never points at a NaN while a non-NaN element exists (first greatest non-NaN element)"
+                );
+            }
+        },
+    }
+}
+
+// ---------------------------------------------------------------------------------------------
+// booleans
+// ---------------------------------------------------------------------------------------------
+
+#[derive(Default)]
+pub struct BFl {
+    pub any_true: bool,
+    pub all_true: bool,
+    pub mixed_null: bool,
+}
+
+/// b[i]: None = null, Some(flag)
+pub fn bool_defs<const N: usize>(b: &[Option<bool>; N], fl: &mut BFl) -> (bool, bool) {
+    let (mut any, mut all, mut nv) = (false, true, 0usize);
+    let mut i = 0;
+    while i < N {
+        if let Some(x) = b[i] {
+            nv += 1;
+            if x {
+                any = true;
+            } else {
+                all = false;
+            }
+        }
+        i += 1;
+    }
+    if any {
+        fl.any_true = true;
+    }
+    if all && nv > 0 {
+        fl.all_true = true;
+    }
+    if nv > 0 && nv < N {
+        fl.mixed_null = true;
+    }
+    (any, all)
+}
+
+/// `Vec<bool>`: any / all / vany / vall, owned and borrowed
+pub fn fam_bool_plain<const N: usize>(fl: &mut BFl) {
+    let x: [bool; N] = kani::any();
+    let mut b = [None; N];
+    let mut i = 0;
+    while i < N {
+        b[i] = Some(x[i]);
+        i += 1;
+    }
+    let (any, all) = bool_defs(&b, fl);
+    let v: Vec<bool> = x.to_vec();
+    assert!(AggBasic::any(v.titer()) == any, "any: some element is true (false for the empty series)");
+    assert!(AggBasic::all(v.titer()) == all, "all: every element is true (true for the empty series)");
+    assert!(AggValidBasic::vany(v.titer()) == any, "vany on plain bools is any");
+    assert!(AggValidBasic::vall(v.titer()) == all, "vall on plain bools is all");
+    let o = v.opt();
+    assert!(AggValidBasic::vany(&o) == any, "vany over the option view of plain bools is any");
+    assert!(AggValidBasic::vall(&o) == all, "vall over the option view of plain bools is all");
+    assert!(AggBasic::any(v.clone()) == any, "any on the owned vector");
+    assert!(AggBasic::all(v) == all, "all on the owned vector");
+}
+
+/// `Vec<Option<bool>>`: vany / vall skip the nulls
+pub fn fam_bool_opt<const N: usize>(fl: &mut BFl) {
+    let b: [Option<bool>; N] = kani::any();
+    let (any, all) = bool_defs(&b, fl);
+    let v: Vec<Option<bool>> = b.to_vec();
+    assert!(AggValidBasic::vany(v.titer()) == any, "vany: some valid element is true (false when none is valid)");
+    assert!(AggValidBasic::vall(v.titer()) == all, "vall: every valid element is true (true when none is valid)");
+    let o = v.opt();
+    assert!(AggValidBasic::vany(&o) == any, "vany over the option view skips nulls");
+    assert!(AggValidBasic::vall(&o) == all, "vall over the option view skips nulls");
+    assert!(AggValidBasic::vany(v.clone()) == any, "vany on the owned vector");
+    assert!(AggValidBasic::vall(v) == all, "vall on the owned vector");
+}
+
+// ---------------------------------------------------------------------------------------------
+// masked sum / mean
+// ---------------------------------------------------------------------------------------------
+
+#[derive(Default)]
+pub struct MFl {
+    /// a valid element excluded by the mask
+    pub excluded: bool,
+    /// a null element selected by the mask
+    pub null_selected: bool,
+    /// mean null because of min_periods although something was selected
+    pub short: bool,
+    pub value: bool,
+    pub null_mask: bool,
+}
+
+/// mask as `Vec<bool>` (`opt_mask == false`) or `Vec<Option<bool>>` (a null mask entry excludes)
+pub fn fam_masked<E: Elt, I: IntoIterator<Item = E>, const N: usize>(k: &[Option<i32>; N], mk: impl Fn() -> I, opt_mask: bool, fl: &mut MFl)
+where
+    E::Inner: IKey + Number,
+{
+    let mask: [Option<bool>; N] = kani::any();
+    let mp: usize = kani::any();
+    kani::assume(mp <= N + 1);
+    let (mut n, mut s) = (0usize, 0i64);
+    let mut plain: Vec<bool> = Vec::with_capacity(N);
+    let mut i = 0;
+    while i < N {
+        if !opt_mask {
+            kani::assume(mask[i].is_some());
+        }
+        let sel = mask[i] == Some(true);
+        plain.push(sel);
+        match k[i] {
+            Some(x) => {
+                if sel {
+                    n += 1;
+                    s += x as i64;
+                } else {
+                    fl.excluded = true;
+                }
+            },
+            None => {
+                if sel {
+                    fl.null_selected = true;
+                }
+            },
+        }
+        if mask[i].is_none() {
+            fl.null_mask = true;
+        }
+        i += 1;
+    }
+    let omask: Vec<Option<bool>> = mask.to_vec();
+    let (rn, rs) = if opt_mask { AggValidExt::n_vsum_filter(mk(), omask.titer()) } else { AggValidExt::n_vsum_filter(mk(), plain.titer()) };
+    assert!(rn == n, "n_vsum_filter counts the valid elements selected by the mask");
+    assert!(rs == E::Inner::of64(s), "n_vsum_filter sums the valid elements selected by the mask");
+    let r = if opt_mask { AggValidExt::n_sum_filter(mk(), omask.titer()) } else { AggValidExt::n_sum_filter(mk(), plain.titer()) };
+    match r {
+        None => assert!(n == 0, "n_sum_filter is null only when nothing valid is selected"),
+        Some(r) => assert!(n > 0 && r == E::Inner::of64(s), "n_sum_filter is the sum of the valid selected elements"),
+    }
+    let m = if opt_mask { AggValidExt::vmean_filter(mk(), omask.titer(), mp) } else { AggValidExt::vmean_filter(mk(), plain.titer(), mp) };
+    if n < mp || n == 0 {
+        if n > 0 {
+            fl.short = true;
+        }
+        assert!(m != m, "vmean_filter is null when fewer than max(min_periods, 1) valid elements are selected");
+    } else {
+        fl.value = true;
+        assert!(m == (s as f64) / (n as f64), "vmean_filter is the sum of the valid selected elements over their number");
+    }
+}
+
+// ---------------------------------------------------------------------------------------------
+// permutation invariance (relational): y = x with positions i < j exchanged
+// ---------------------------------------------------------------------------------------------
+
+pub fn transposed<T: Copy, const N: usize>(x: &[T; N]) -> ([T; N], usize, usize) {
+    let i: usize = kani::any();
+    let j: usize = kani::any();
+    kani::assume(i < j && j < N);
+    let mut y = *x;
+    let mut p = 0;
+    while p < N {
+        if p == i {
+            y[p] = x[j];
+        } else if p == j {
+            y[p] = x[i];
+        }
+        p += 1;
+    }
+    (y, i, j)
+}
+
+fn same_opt_f64(a: f64, b: f64) -> bool {
+    (a != a && b != b) || a == b
+}
+
+/// null-aware symmetric aggregations on `E` (keys from `alpha`; sums only when `sums`)
+pub fn perm_valid<E: Elt, const N: usize>(alpha: Alpha, sums: bool) -> bool
+where
+    E::Inner: IKey + Number,
+{
+    let x = keys::<N>(alpha, true);
+    let (y, i, j) = transposed(&x);
+    let (a, b): (Vec<E>, Vec<E>) = (to_vec(&x), to_vec(&y));
+    assert!(a.titer().count_valid() == b.titer().count_valid(), "count_valid is invariant under a transposition");
+    assert!(a.titer().count_none() == b.titer().count_none(), "count_none is invariant under a transposition");
+    let val: Option<i32> = if kani::any() { None } else { Some(kani::any()) };
+    assert!(
+        a.titer().vcount_value(E::from_key(val)) == b.titer().vcount_value(E::from_key(val)),
+        "vcount_value is invariant under a transposition"
+    );
+    assert!(a.titer().vmin() == b.titer().vmin(), "vmin is invariant under a transposition");
+    assert!(a.titer().vmax() == b.titer().vmax(), "vmax is invariant under a transposition");
+    if sums {
+        assert!(a.titer().vsum() == b.titer().vsum(), "vsum is invariant under a transposition");
+        assert!(same_opt_f64(a.titer().vmean(), b.titer().vmean()), "vmean is invariant under a transposition");
+    }
+    x[i] != x[j]
+}
+
+/// null-unaware symmetric aggregations on a null-free integer series
+pub fn perm_plain<const N: usize>(sums: bool) -> bool {
+    let x: [i32; N] = kani::any();
+    if sums {
+        let mut p = 0;
+        while p < N {
+            kani::assume(x[p] >= -1000 && x[p] <= 1000);
+            p += 1;
+        }
+    }
+    let (y, i, j) = transposed(&x);
+    let (a, b): (Vec<i32>, Vec<i32>) = (x.to_vec(), y.to_vec());
+    let val: i32 = kani::any();
+    assert!(AggBasic::count_value(a.titer(), val) == AggBasic::count_value(b.titer(), val), "count_value is invariant under a transposition");
+    assert!(AggBasic::min(a.titer()) == AggBasic::min(b.titer()), "min is invariant under a transposition");
+    assert!(AggBasic::max(a.titer()) == AggBasic::max(b.titer()), "max is invariant under a transposition");
+    if sums {
+        assert!(AggBasic::sum(a.titer()) == AggBasic::sum(b.titer()), "sum is invariant under a transposition");
+        assert!(AggBasic::mean(a.titer()) == AggBasic::mean(b.titer()), "mean is invariant under a transposition");
+    }
+    x[i] != x[j]
+}
+
+pub fn perm_bool<const N: usize>() -> bool {
+    let x: [Option<bool>; N] = kani::any();
+    let (y, i, j) = transposed(&x);
+    let (a, b): (Vec<Option<bool>>, Vec<Option<bool>>) = (x.to_vec(), y.to_vec());
+    assert!(a.titer().vany() == b.titer().vany(), "vany is invariant under a transposition");
+    assert!(a.titer().vall() == b.titer().vall(), "vall is invariant under a transposition");
+    let mut p = 0;
+    let (mut pa, mut pb): (Vec<bool>, Vec<bool>) = (Vec::with_capacity(N), Vec::with_capacity(N));
+    while p < N {
+        pa.push(x[p] == Some(true));
+        pb.push(y[p] == Some(true));
+        p += 1;
+    }
+    assert!(AggBasic::any(pa.titer()) == AggBasic::any(pb.titer()), "any is invariant under a transposition");
+    assert!(AggBasic::all(pa.titer()) == AggBasic::all(pb.titer()), "all is invariant under a transposition");
+    x[i] != x[j]
+}
+
+// ---------------------------------------------------------------------------------------------
+// fold protocols (DESIGN 1.3): f is applied to exactly the non-null items, in order, once each
+// ---------------------------------------------------------------------------------------------
+
+/// item types of the folds; values are unconstrained bit patterns (floats: every non-NaN value,
+/// NaN of any payload is the null), nullness judged by the harness
+pub trait FElem: Copy + IsNone + kani::Arbitrary {
+    /// canonical nulls only (DESIGN 5.4): excludes `Some(NaN)`
+    fn canonical(&self) -> bool;
+    fn null(&self) -> bool;
+    fn same_item(&self, o: &Self) -> bool;
+    /// `o` is the unwrapped value of `self` (self is not null)
+    fn same_inner(&self, o: &Self::Inner) -> bool;
+    fn opt(&self) -> Option<Self::Inner>;
+}
+
+impl FElem for i32 {
+    fn canonical(&self) -> bool {
+        true
+    }
+    fn null(&self) -> bool {
+        false
+    }
+    fn same_item(&self, o: &Self) -> bool {
+        self == o
+    }
+    fn same_inner(&self, o: &i32) -> bool {
+        self == o
+    }
+    fn opt(&self) -> Option<i32> {
+        Some(*self)
+    }
+}
+impl FElem for Option<i32> {
+    fn canonical(&self) -> bool {
+        true
+    }
+    fn null(&self) -> bool {
+        matches!(self, None)
+    }
+    fn same_item(&self, o: &Self) -> bool {
+        self == o
+    }
+    fn same_inner(&self, o: &i32) -> bool {
+        *self == Some(*o)
+    }
+    fn opt(&self) -> Option<i32> {
+        *self
+    }
+}
+impl FElem for f64 {
+    fn canonical(&self) -> bool {
+        true
+    }
+    fn null(&self) -> bool {
+        self.is_nan()
+    }
+    fn same_item(&self, o: &Self) -> bool {
+        self.to_bits() == o.to_bits()
+    }
+    fn same_inner(&self, o: &f64) -> bool {
+        self.to_bits() == o.to_bits()
+    }
+    fn opt(&self) -> Option<f64> {
+        if self.is_nan() { None } else { Some(*self) }
+    }
+}
+impl FElem for Option<f64> {
+    fn canonical(&self) -> bool {
+        match self {
+            Some(v) => !v.is_nan(),
+            None => true,
+        }
+    }
+    fn null(&self) -> bool {
+        matches!(self, None)
+    }
+    fn same_item(&self, o: &Self) -> bool {
+        match (self, o) {
+            (None, None) => true,
+            (Some(a), Some(b)) => a.to_bits() == b.to_bits(),
+            _ => false,
+        }
+    }
+    fn same_inner(&self, o: &f64) -> bool {
+        match self {
+            Some(a) => a.to_bits() == o.to_bits(),
+            None => false,
+        }
+    }
+    fn opt(&self) -> Option<f64> {
+        *self
+    }
+}
+
+pub fn any_items<J: FElem, const N: usize>() -> [J; N] {
+    let x: [J; N] = kani::any();
+    let mut i = 0;
+    while i < N {
+        kani::assume(x[i].canonical());
+        i += 1;
+    }
+    x
+}
+
+/// expected items of the option view over `x`
+pub fn opt_items<J: FElem, const N: usize>(x: &[J; N]) -> [Option<J::Inner>; N]
+where
+    J::Inner: Copy,
+{
+    let mut o = [None; N];
+    let mut i = 0;
+    while i < N {
+        o[i] = x[i].opt();
+        i += 1;
+    }
+    o
+}
+
+/// The recorder walks the expected items with its own cursor: at every call the cursor skips the
+/// nulls, must not run off the end (f called too often / on a null), and must stand on the item just
+/// received (order, nothing skipped); at the end it must have consumed every non-null item.
+pub struct Rec<'a, J: FElem, const N: usize> {
+    pub x: &'a [J; N],
+    /// second series of `vfold2` (same length; an entry counts only when both are non-null)
+    pub y: Option<&'a [J; N]>,
+    pub pos: usize,
+    pub calls: usize,
+}
+
+impl<'a, J: FElem, const N: usize> Rec<'a, J, N> {
+    pub fn new(x: &'a [J; N], y: Option<&'a [J; N]>) -> Self {
+        Rec { x, y, pos: 0, calls: 0 }
+    }
+    fn skip(&self, p: usize) -> bool {
+        self.x[p].null()
+            || match self.y {
+                Some(y) => y[p].null(),
+                None => false,
+            }
+    }
+    fn advance(&mut self) {
+        while self.pos < N && self.skip(self.pos) {
+            self.pos += 1;
+        }
+    }
+    /// returns the index of the item this call must carry
+    fn step(&mut self) -> Option<usize> {
+        self.advance();
+        self.calls += 1;
+        if self.pos < N {
+            self.pos += 1;
+            Some(self.pos - 1)
+        } else {
+            None
+        }
+    }
+    pub fn on_item(&mut self, v: J) {
+        match self.step() {
+            None => assert!(false, "f is never called more often than there are non-null items"),
+            Some(p) => assert!(self.x[p].same_item(&v), "call c carries the c-th non-null item (in order, none skipped)"),
+        }
+    }
+    pub fn on_items(&mut self, va: J, vb: J) {
+        match (self.step(), self.y) {
+            (Some(p), Some(y)) => {
+                assert!(self.x[p].same_item(&va) && y[p].same_item(&vb), "call c carries the c-th pairwise non-null pair (in order, none skipped)")
+            },
+            _ => assert!(false, "f is never called more often than there are pairwise non-null pairs"),
+        }
+    }
+    pub fn on_inner(&mut self, v: J::Inner) {
+        match self.step() {
+            None => assert!(false, "f is never called more often than there are non-null items (unwrapped form)"),
+            Some(p) => assert!(self.x[p].same_inner(&v), "call c carries the unwrapped c-th non-null item (in order, none skipped)"),
+        }
+    }
+    /// number of (pairwise) non-null items, by definition
+    pub fn expected(&self) -> usize {
+        let mut n = 0;
+        let mut p = 0;
+        while p < N {
+            if !self.skip(p) {
+                n += 1;
+            }
+            p += 1;
+        }
+        n
+    }
+    pub fn done(&mut self) -> usize {
+        self.advance();
+        assert!(self.pos == N, "every non-null item was handed to f");
+        assert!(self.calls == self.expected(), "f was called exactly once per non-null item");
+        let c = self.calls;
+        self.pos = 0;
+        self.calls = 0;
+        c
+    }
+}
+
+/// All single-series folds over the item array `x` (what the iterator yields), source `mk`.
+/// The accumulator protocol: f receives the value returned by the previous call (the initial value
+/// at the first call) and the fold returns the value of the last call — checked by threading the
+/// call number.
+pub fn fold_protocol<J: FElem, I: IntoIterator<Item = J>, const N: usize>(x: &[J; N], mk: impl Fn() -> I) -> usize {
+    let mut r = Rec::new(x, None);
+    // vfold
+    let out = mk().vfold(0usize, |acc, v| {
+        assert!(acc == r.calls, "vfold: f receives the accumulator returned by the previous call");
+        r.on_item(v);
+        acc + 1
+    });
+    let n = r.done();
+    assert!(out == n, "vfold returns the accumulator of the last call (the initial value when nothing is valid)");
+    // vfold_n
+    let (cnt, out) = mk().vfold_n(0usize, |acc, v| {
+        assert!(acc == r.calls, "vfold_n: f receives the accumulator returned by the previous call");
+        r.on_inner(v);
+        acc + 1
+    });
+    let n = r.done();
+    assert!(cnt == n, "vfold_n returns the number of non-null items");
+    assert!(out == n, "vfold_n returns the accumulator of the last call");
+    // vapply
+    mk().vapply(|v| r.on_inner(v));
+    r.done();
+    // vapply_n
+    let cnt = mk().vapply_n(|v| r.on_inner(v));
+    let n = r.done();
+    assert!(cnt == n, "vapply_n returns the number of non-null items");
+    n
+}
+
+pub fn fold2_protocol<J: FElem, I: IntoIterator<Item = J>, I2: IntoIterator<Item = J>, const N: usize>(
+    x: &[J; N],
+    y: &[J; N],
+    mk: impl Fn() -> I,
+    mk2: impl Fn() -> I2,
+) -> usize {
+    let mut r = Rec::new(x, Some(y));
+    let out = mk().vfold2(mk2(), 0usize, |acc, va, vb| {
+        assert!(acc == r.calls, "vfold2: f receives the accumulator returned by the previous call");
+        r.on_items(va, vb);
+        acc + 1
+    });
+    let n = r.done();
+    assert!(out == n, "vfold2 returns the accumulator of the last call");
+    n
+}
+
+include!("c11_gen.rs");
